@@ -218,7 +218,16 @@ class FnUninit:
         if op == "load":
             root, off = self.addr(i.ops[0])
             if root is not None and off is not None:
-                self.read(st, root, off, i["size"], i, "load", record)
+                # `c ? 0 : local` is compiled to an unconditional load feeding a select: the value only counts where the select takes it,
+                # so the object needs to be initialised under that arm's condition only
+                st_r = st
+                sel = self.sole_select_use(i)
+                if sel is not None:
+                    arms = [k for k in (1, 2) if self._feeds(sel.ops[k], i.id)]
+                    if len(arms) == 1:
+                        atoms = []; self._cond_parts(sel.ops[0], arms[0] == 1, atoms)
+                        for (c_, truth_) in atoms: st_r = self._edge_atom(c_, truth_, st_r)
+                self.read(st_r, root, off, i["size"], i, "load", record)
         elif op == "store":
             root, off = self.addr(i.ops[1])
             if root is not None and off is not None:
@@ -289,7 +298,52 @@ class FnUninit:
         if t.op != "br" or len(t.ops) != 3: return st
         cond = t.ops[0]; fls, tru = t.ops[1]["v"], t.ops[2]["v"]
         if fls == tru or cond["k"] != "inst": return st
-        taken = (b.id == tru)
+        # a condition built with | / & (or their select forms): on the false side of an "or" both parts are false, on the true side of an
+        # "and" both are true
+        atoms = []
+        self._cond_parts(cond, b.id == tru, atoms)
+        for (c_, truth_) in atoms: st = self._edge_atom(c_, truth_, st)
+        return st
+
+    def _cond_parts(self, o, truth, atoms, d=0):
+        if o["k"] != "inst" or d > 6: return
+        x = self.fn.imap[o["v"]]
+        if x.op == "xor" and x.ops[1]["k"] == "int" and int(x.ops[1]["v"]) & 1 and x["t"] == "i1": self._cond_parts(x.ops[0], not truth, atoms, d + 1); return
+        is_or = (x.op == "or" and x["t"] == "i1") or (x.op == "select" and x["t"] == "i1" and x.ops[1]["k"] == "int" and int(x.ops[1]["v"]) == 1)
+        is_and = (x.op == "and" and x["t"] == "i1") or (x.op == "select" and x["t"] == "i1" and x.ops[2]["k"] == "int" and int(x.ops[2]["v"]) == 0)
+        if is_or and not truth:
+            a_, b_ = (x.ops[0], x.ops[2]) if x.op == "select" else (x.ops[0], x.ops[1])
+            self._cond_parts(a_, False, atoms, d + 1); self._cond_parts(b_, False, atoms, d + 1); return
+        if is_and and truth:
+            self._cond_parts(x.ops[0], True, atoms, d + 1); self._cond_parts(x.ops[1], True, atoms, d + 1); return
+        if is_or or is_and: return
+        atoms.append((o, truth))
+
+    def _feeds(self, o, vid, d=0):
+        """o is the value vid, possibly through casts"""
+        if o["k"] != "inst" or d > 4: return False
+        if o["v"] == vid: return True
+        x = self.fn.imap[o["v"]]
+        return x.op in ("zext", "sext", "trunc", "bitcast") and self._feeds(x.ops[0], vid, d + 1)
+
+    def sole_select_use(self, ld):
+        """the select that is the only consumer of this load (through casts), or None"""
+        if not hasattr(self, "_users"):
+            self._users = {}
+            for j in self.fn.insts():
+                ops = [x["v"] for x in j["incoming"]] if j.op == "phi" else j.ops
+                for o in ops:
+                    if o["k"] == "inst": self._users.setdefault(o["v"], []).append(j)
+        cur = ld; sel = None
+        for _ in range(5):
+            us = self._users.get(cur.id, [])
+            if len(us) != 1: return None
+            u = us[0]
+            if u.op in ("zext", "sext", "trunc", "bitcast"): cur = u; continue
+            return u if u.op == "select" and not self._feeds(u.ops[0], ld.id) else None
+        return None
+
+    def _edge_atom(self, cond, taken, st):
         ci = self.fn.imap[cond["v"]]
         if ci.op != "icmp":
             # `if (helper(...))` / `if (!helper(...))` on a bool-returning callee: the same as comparing its result with 0
